@@ -63,12 +63,15 @@ func NewChecker(ctx context.Context, metrics *Store, threshold float64) *Checker
 func (mc *Checker) CheckPeers(peers []peer.ID) error {
 	for _, name := range mc.metrics.MetricNames() {
 		for _, peer := range peers {
-			for _, metric := range mc.metrics.PeerMetricAll(name, peer) {
-				if mc.FailedMetric(metric.Name, peer) {
-					err := mc.alert(peer, metric.Name)
-					if err != nil {
-						return err
-					}
+			// Check each peer once per metric name (not once per
+			// stored value), and only when we hold metrics for it.
+			if mc.metrics.PeerLatest(name, peer) == nil {
+				continue
+			}
+			if mc.FailedMetric(name, peer) {
+				err := mc.alert(peer, name)
+				if err != nil {
+					return err
 				}
 			}
 		}
